@@ -1537,6 +1537,12 @@ func main() {
 	}
 	if r.Replay == "" {
 		runConcurrentEnc(r) // two requests in flight on one middleware instance (small; runs in this process)
+		lr := core.NewLocal()
+		layerR(lr) // related keys used in one process (small; runs in this process)
+		r.Merge(lr.P)
+		if r.P.Counters["related_key_rejected"] == 0 && len(r.P.Violations) == 0 {
+			core.Fatal("vacuous: layer R rejected nothing")
+		}
 	}
 	foldNextQualifier(r.P.Violations)
 	if os.Getenv("C20_OUTCOMES") != "" { // development aid: the outcome histogram (the evidence file lists it only up to 40 keys)
@@ -1569,7 +1575,7 @@ func main() {
 		Coverage: map[string]any{
 			"evaluations":         c["evaluations"],
 			"distinct_nontrivial": c["nontrivial"],
-			"rule": fmt.Sprintf("every request/response exchange with the real middleware over ServeConn is one evaluation. Layer A: %d keys x %d names x %d values x 8 Except subsets (the 4 KiB value of the thorough tier: 3 Except sets), one cookie: issue, replay, then EVERY substitution of every character by each of the %d characters of base64+'='+'-'+' ', every prefix and suffix truncation, every one-character insertion at every position, the ciphertext of each other key, of each other value, of each other name, and the plaintext. Layer B: %d keys x all ordered name tuples of size 2 (value menu %d^2) and 3 (value menu %d^3) x 8 Except subsets: issue, replay in one / in separate Cookie headers while the handler sets cookies again, then a fixed family of ~85 manipulations on each position with the others valid, then all non-excepted positions manipulated at once. Layer C: %d invalid keys. Layer D: duplicate-name requests. Layer E (how the exchange ends): %d keys x 8 Except subsets x {default, custom ErrorHandler} x {app.Use chain, route-level handler chain} x %d handler ends (return nil with/without body, 201, redirect, SendStatus 403/502, *fiber.Error 401/503, plain error, body then *fiber.Error, wrapped *fiber.Error, c.Next() with no further route, no route at all, panic behind the recover middleware) x {downstream middleware propagates / answers the error} x cookie placements over 4 slots (downstream middleware before/after c.Next(), final handler before/after its response-writing call): one cookie, two cookies over all slot pairs, one name set twice, x %d value rotations; every exchange also carries one validly issued request cookie; the application without the middleware must answer with the planned status and cookies (self-check). Concurrent part: every ordered pair of 4 requests (with valid cookies, without, with a forged cookie; also a request with itself) in flight on ONE middleware instance, all interleavings with <=2 (thorough <=3) preemptions at the Encryptor/Decryptor/handler seams and at any shimmed sync operation of the middleware; each response, with its Set-Cookie values decrypted, must equal the response of the same request served alone (counters cc_executions, cc_points). Layer N (names vs Except): %d keys x %d Except lists (empty; one entry; the entry in front of / amid / behind 8 unrelated names; an entry twice; all names in three orders) built from %d related names (case variants, prefixes, extensions, one byte off, 64-byte names): all names in one exchange and every name alone, each issued, replayed and forged (truncated, substituted, other key, plaintext; for listed names: passed through); a name is excepted iff it is listed exactly. Layer M (many cookies): %d keys x %v cookies per request and response x Except {none, two of them}, forgeries at the first, second, middle, last-but-one and last position and at all positions at once. Layer L (long values): %d keys x %d names x values of %v bytes x Except {none, this name, the others}: issue, replay, the ~85 reduced manipulations, other key, plaintext; next to a short cookie in both orders. Layer K (kind of request, Config.Next): %d keys x %d Except subsets x Config.Next {nil, always false, true under /skip} x 7 methods x 3 spellings of the Cookie field name x 2 separators, three cookies issued, replayed and forged per request kind; a request Next answers true for precedes every judged one (itself outside the statement: outcome only). Layer F (the Encryptor fails): %d keys x 8 Except subsets x {entropy source returns an error, custom Encryptor returns an error} x {recover middleware in front, nothing in front} x 11 cookie sets of 1-3 cookies x the failing encryption (1st..nth, once / from then on): no plaintext of a non-excepted cookie in whatever reaches the wire, and the next exchange on the same application issues and accepts cookies as usual. Non-trivial = an exchange whose request carries at least one cookie that is not an unmodified issued one, or whose response carries a non-excepted non-empty cookie (counted in the loop).",
+			"rule": fmt.Sprintf("every request/response exchange with the real middleware over ServeConn is one evaluation. Layer A: %d keys x %d names x %d values x 8 Except subsets (the 4 KiB value of the thorough tier: 3 Except sets), one cookie: issue, replay, then EVERY substitution of every character by each of the %d characters of base64+'='+'-'+' ', every prefix and suffix truncation, every one-character insertion at every position, the ciphertext of each other key, of each other value, of each other name, and the plaintext. Layer B: %d keys x all ordered name tuples of size 2 (value menu %d^2) and 3 (value menu %d^3) x 8 Except subsets: issue, replay in one / in separate Cookie headers while the handler sets cookies again, then a fixed family of ~85 manipulations on each position with the others valid, then all non-excepted positions manipulated at once. Layer C: %d invalid keys. Layer D: duplicate-name requests. Layer E (how the exchange ends): %d keys x 8 Except subsets x {default, custom ErrorHandler} x {app.Use chain, route-level handler chain} x %d handler ends (return nil with/without body, 201, redirect, SendStatus 403/502, *fiber.Error 401/503, plain error, body then *fiber.Error, wrapped *fiber.Error, c.Next() with no further route, no route at all, panic behind the recover middleware) x {downstream middleware propagates / answers the error} x cookie placements over 4 slots (downstream middleware before/after c.Next(), final handler before/after its response-writing call): one cookie, two cookies over all slot pairs, one name set twice, x %d value rotations; every exchange also carries one validly issued request cookie; the application without the middleware must answer with the planned status and cookies (self-check). Layer R (related keys): every ordered pair of 11 mutually related keys (a 16-byte key and its zero-padded 24- and 32-byte extensions, the leading 16/24 bytes of a 32-byte key, one bit flipped, bytes rotated, all-zero keys of the three lengths) used by two middleware instances of one process in both orders of first use x 3 values: a cookie issued under one must reach the handler behind the other empty, and each instance still round-trips its own cookies. Concurrent part: every ordered pair of 4 requests (with valid cookies, without, with a forged cookie; also a request with itself) in flight on ONE middleware instance, all interleavings with <=2 (thorough <=3) preemptions at the Encryptor/Decryptor/handler seams and at any shimmed sync operation of the middleware; each response, with its Set-Cookie values decrypted, must equal the response of the same request served alone (counters cc_executions, cc_points). Layer N (names vs Except): %d keys x %d Except lists (empty; one entry; the entry in front of / amid / behind 8 unrelated names; an entry twice; all names in three orders) built from %d related names (case variants, prefixes, extensions, one byte off, 64-byte names): all names in one exchange and every name alone, each issued, replayed and forged (truncated, substituted, other key, plaintext; for listed names: passed through); a name is excepted iff it is listed exactly. Layer M (many cookies): %d keys x %v cookies per request and response x Except {none, two of them}, forgeries at the first, second, middle, last-but-one and last position and at all positions at once. Layer L (long values): %d keys x %d names x values of %v bytes x Except {none, this name, the others}: issue, replay, the ~85 reduced manipulations, other key, plaintext; next to a short cookie in both orders. Layer K (kind of request, Config.Next): %d keys x %d Except subsets x Config.Next {nil, always false, true under /skip} x 7 methods x 3 spellings of the Cookie field name x 2 separators, three cookies issued, replayed and forged per request kind; a request Next answers true for precedes every judged one (itself outside the statement: outcome only). Layer F (the Encryptor fails): %d keys x 8 Except subsets x {entropy source returns an error, custom Encryptor returns an error} x {recover middleware in front, nothing in front} x 11 cookie sets of 1-3 cookies x the failing encryption (1st..nth, once / from then on): no plaintext of a non-excepted cookie in whatever reaches the wire, and the next exchange on the same application issues and accepts cookies as usual. Non-trivial = an exchange whose request carries at least one cookie that is not an unmodified issued one, or whose response carries a non-excepted non-empty cookie (counted in the loop).",
 				len(keys), len(names), nv, len(mutAlpha), len(keysB), len(menu2), len(menu3), len(badKeys), len(keysB), len(ends), len(menuE),
 				len(keysB), nLists, len(relNames), len(keysB), manyK, len(keysB), len(names), longLens, len(keysB), len(masksK), len(keysB)),
 			"bounds": map[string]any{"keys": len(keys), "key_lengths": []int{16, 24, 32}, "names": names, "values": nv, "max_value_bytes": len(vals[nv-1]),
